@@ -361,7 +361,7 @@ def native_check(target, con, args: dict, call, ensures=None):
     """Run `call(**args)` natively and evaluate the contract.  Returns a dict describing the outcome:
     {'outcome': 'returned'|'raised', 'failed_clauses': [...], 'contract_ok': bool, ...}."""
     env = native_env()
-    ensures = list(con.ensures if ensures is None else ensures)
+    ensures = list(con.ensures if ensures is None else ensures) + list(getattr(con, "native_ensures", []))
     parsed = []
     pre_env = dict(args)
     olds_all = {}
